@@ -76,6 +76,7 @@ create type default::User extending default::Named {
 };
 create type default::Bot extending default::Named {
   create property c -> default::Color;
+  create multi link friends -> default::User;
   create required link owner -> default::User; };
 create alias default::UA := default::User { n := .name ++ '!' };
 create global default::g1 -> str;
